@@ -391,6 +391,10 @@ func (r *Repository) ReconcileLocalRSLWithRemote(ctx context.Context, remoteName
 
 	// Apply local only entries on top of the new local RSL
 	// localOnlyEntries is in reverse order
+	// reappliedIDs maps the ID of each local only entry to the ID of the entry
+	// it was reapplied as, so that annotations keep referring to (and
+	// revoking) the same entries
+	reappliedIDs := map[string]githash.Hash{}
 	for i := len(localOnlyEntries) - 1; i >= 0; i-- {
 		slog.Debug(fmt.Sprintf("Reapplying entry '%s'...", localOnlyEntries[i].GetID().String()))
 
@@ -404,10 +408,27 @@ func (r *Repository) ReconcileLocalRSLWithRemote(ctx context.Context, remoteName
 				return fmt.Errorf("unable to reapply reference entry '%s': %w", entry.ID.String(), err)
 			}
 		case *rsl.AnnotationEntry:
-			if err := rsl.NewAnnotationEntry(entry.RSLEntryIDs, entry.Skip, entry.Message).Commit(r.r, sign); err != nil {
+			rslEntryIDs := make([]githash.Hash, 0, len(entry.RSLEntryIDs))
+			for _, id := range entry.RSLEntryIDs {
+				if reappliedID, has := reappliedIDs[id.String()]; has {
+					id = reappliedID
+				}
+				rslEntryIDs = append(rslEntryIDs, id)
+			}
+			if err := rsl.NewAnnotationEntry(rslEntryIDs, entry.Skip, entry.Message).Commit(r.r, sign); err != nil {
 				return fmt.Errorf("unable to reapply annotation entry '%s': %w", entry.ID.String(), err)
 			}
+		case *rsl.PropagationEntry:
+			if err := rsl.NewPropagationEntry(entry.RefName, entry.TargetID, entry.UpstreamRepository, entry.UpstreamEntryID).Commit(r.r, sign); err != nil {
+				return fmt.Errorf("unable to reapply propagation entry '%s': %w", entry.ID.String(), err)
+			}
 		}
+
+		reappliedID, err := r.r.GetReference(rsl.Ref)
+		if err != nil {
+			return fmt.Errorf("unable to get current tip of the RSL: %w", err)
+		}
+		reappliedIDs[localOnlyEntries[i].GetID().String()] = reappliedID
 
 		if slog.Default().Enabled(ctx, slog.LevelDebug) {
 			currentTip, err := r.r.GetReference(rsl.Ref)
